@@ -411,7 +411,7 @@ def l23_seq(i0: int, i1: int, i2: int, w0: int, w1: int, w2: int, n0: int, n1: i
         cur_nt = [e.num_tasks for e in node.employees]
         caches = [list(e.submit_cache) for e in node.employees]
         if kind == 0:
-            T = rt.P(p[1], 1, TM)
+            T = rt.SHARD['Ts'][s] if 'Ts' in rt.SHARD else rt.P(p[1], 1, TM)
             tasks = _batch(T, next_box)
             next_box += T
             # which worker gets a task is covered exhaustively by L1/L2; here the shuffle outcome is one of two
@@ -831,9 +831,20 @@ def part_a(tier: str) -> list[dict]:
     ob('L3/waiting/manager', 'l3_waiting', {'E': 2, 'K': 2, 'x': 1, 'node': 'manager'}, to)
     S, W = 0, 1
 
-    def seq(E: int, TM: int, kinds: list) -> None:
-        ob('L23/seq/E%d/TM%d/%s' % (E, TM, ''.join('SW'[k] for k in kinds)), 'l23_seq',
-           {'E': E, 'N': len(kinds), 'TM': TM, 'kinds': kinds}, to)
+    def seq(E: int, TM: int, kinds: list, by_size: bool = False) -> None:
+        """by_size: one obligation per combination of batch sizes of the schedule steps (parallelisation only)."""
+        combos: list = [None]
+        if by_size:
+            combos = [[]]
+            for k in kinds:
+                combos = [c + [t] for c in combos for t in (range(1, TM + 1) if k == S else [0])]
+        for Ts in combos:
+            sh = {'E': E, 'N': len(kinds), 'TM': TM, 'kinds': kinds}
+            name = 'L23/seq/E%d/TM%d/%s' % (E, TM, ''.join('SW'[k] for k in kinds))
+            if Ts is not None:
+                sh['Ts'] = Ts
+                name += '/sizes=' + ''.join(str(t) if t else '-' for t in Ts)
+            ob(name, 'l23_seq', sh, to)
 
     if quick:
         for kinds in [[S, W, W], [S, S, W], [W, S, W], [S, W, S]]:
@@ -842,7 +853,7 @@ def part_a(tier: str) -> list[dict]:
             seq(2, 2, kinds)
     else:
         for kinds in [[a, b, c] for a in (S, W) for b in (S, W) for c in (S, W)]:
-            seq(2, 2, kinds)
+            seq(2, 2, kinds, by_size=True)
         for kinds in [[a, b, c, d] for a in (S, W) for b in (S, W) for c in (S, W) for d in (S, W)]:
             seq(2, 1, kinds)
         for kinds in [[S, W, W], [S, S, W], [S, W, S]]:
